@@ -100,7 +100,9 @@ int take_err(void) {
 }
 
 /* ---------------------------------------------------------------------------------------- */
+#ifndef ORACLE_NO_BN
 extern const op_t ops_bn[];
+#endif
 #ifdef ORACLE_FP
 extern const op_t ops_fp[];
 #endif
@@ -144,7 +146,9 @@ static const op_t *tables[] = {
 #ifdef ORACLE_EXTRA4
 	ORACLE_EXTRA4,
 #endif
+#ifndef ORACLE_NO_BN
 	ops_bn,
+#endif
 #if defined(ORACLE_MD)
 	ops_md,
 #endif
